@@ -49,7 +49,7 @@ func (c c16Cfg) wantIdle() uint32 {
 
 func CheckC16(l *Lab, verifDir string) int {
 	rep := NewReport("C16", l.Tier, l.Seed, "exploration", verifDir)
-	rep.Rule = "one gateway process per configuration: all 2^7 redirect switch combinations x idle timeouts {-2^31,-1,0,1,10,2^31-1} (full product; server capability setting cycling in quick, all four in thorough); per gateway a fixed set of histories reaching every outcome (accepted, each wrong phase, capability mismatch, rejected cookie, denied host, unreachable host, close, host data) on both transports; every packet the gateway sent is decoded by the lab's independent strict MS-TSGU decoder and compared with the reference encoder of the statement. non-trivial = at least one response decoded; distinct = configuration x history x response sequence"
+	rep.Rule = "hosts that send a banner right after accept (with a delay point in front of the gateway's transport write): the packet answering channel-create must still be the channel response and the banner must follow as DATA; one gateway process per configuration: all 2^7 redirect switch combinations x idle timeouts {-2^31,-1,0,1,10,2^31-1} (full product; server capability setting cycling in quick, all four in thorough); per gateway a fixed set of histories reaching every outcome (accepted, each wrong phase, capability mismatch, rejected cookie, denied host, unreachable host, close, host data) on both transports; every packet the gateway sent is decoded by the lab's independent strict MS-TSGU decoder and compared with the reference encoder of the statement. non-trivial = at least one response decoded; distinct = configuration x history x response sequence"
 	rep.SetExhaustive(true)
 	idles := []int{-2147483648, -1, 0, 1, 10, 2147483647}
 	var cfgs []c16Cfg
@@ -86,6 +86,7 @@ func CheckC16(l *Lab, verifDir string) int {
 	}
 	close(jobs)
 	wg.Wait()
+	c16Greeting(l, rep, idp)
 	return rep.Finish(100)
 }
 
@@ -270,4 +271,66 @@ func (e *TunnelEnv) wd() (d time.Duration) {
 		return 5e9
 	}
 	return e.W
+}
+
+// c16Greeting: hosts that speak first (a banner right after accept): the packet
+// answering channel-create is still the channel response, the banner follows as DATA.
+func c16Greeting(l *Lab, rep *Report, idp *IdP) {
+	f, err := l.NewFixture(FixtureOpts{Kind: "openid", IdP: idp, Points: "tunnel.write=60:3000"})
+	if err != nil {
+		rep.Inconclusive("greeting fixture: " + err.Error())
+		return
+	}
+	defer f.Close()
+	n := l.Pick(40, 400)
+	for i := 0; i < n; i++ {
+		greet := GenStream(uint64(i)+4242, 1+(i*37)%900)
+		f.ResetBackends()
+		f.H1.SetGreeting(greet)
+		tr := Transports()[i%len(Transports())]
+		env := f.Env(tr)
+		t, _, err := env.OpenTunnel(NewConnID("g"))
+		if err != nil || t == nil {
+			rep.Inconclusive("greeting open")
+			continue
+		}
+		steps := []Sym{f.SymHS(true), f.SymTC("good", f.H1.Addr()), f.SymTA(), f.SymCC(f.H1.Addr())}
+		okc := true
+		for k, s := range steps {
+			t.Send(s.Wire)
+			if got, _ := t.WaitPackets(k+1, env.wd()); got < k+1 {
+				okc = false
+				break
+			}
+		}
+		if !okc {
+			rep.Inconclusive("greeting: setup not completed")
+			t.Close()
+			continue
+		}
+		t.WaitDataBytes(len(greet), env.wd())
+		s := t.Snapshot()
+		detail := map[string]any{"transport": tr, "greeting_bytes": len(greet), "trace": s.Log}
+		var types []string
+		for _, p := range s.Packets {
+			types = append(types, PktName(p.Raw.Type))
+		}
+		rep.Eval(HashStr("greeting", tr, len(greet)%7, len(s.Packets)))
+		rep.Count("greeting_tunnels", 1)
+		if s.Packets[3].Raw.Type != PktChannelResp {
+			rep.Violate("C16/response-type-does-not-match-request/channel-create/"+tr, fmt.Sprintf("host greets on connect: the packet after channel-create is %s, want the channel response (packets: %v)", PktName(s.Packets[3].Raw.Type), types), detail)
+		} else if st, _ := LenientStatus(s.Packets[3].Raw); st != 0 {
+			rep.Violate("C16/status-does-not-report-outcome/channel-create/"+tr, fmt.Sprintf("host greets on connect: channel response carries status %#x although the connection was made", st), detail)
+		}
+		if payload, perr := s.DataPayload(); perr != nil {
+			rep.Violate("C16/malformed-DATA", perr.Error(), detail)
+		} else if string(payload) != string(greet) {
+			rep.Violate("C16/host-data", fmt.Sprintf("host greeted with %d bytes, client decoded %d (equal=false)", len(greet), len(payload)), detail)
+		}
+		t.Close()
+	}
+	f.H1.SetGreeting(nil)
+	if fl := f.GW.Faults(); len(fl) > 0 {
+		rep.Violate("C16/gateway-fault", "runtime fault in the gateway log: "+fl[0], f.GW.FaultContext(3000))
+	}
 }
